@@ -399,6 +399,12 @@ func lexCheck(outs []*absint.Outcome, result func(*absint.Outcome) (int64, bool)
 			if !ok {
 				return false, "non-constant result: " + o.String()
 			}
+			if strings.HasPrefix(o.Ref, "exit:decided:") {
+				return false, "the loop ends normally after a non-equal element: " + o.String()
+			}
+			if !strings.HasPrefix(o.Ref, "exit:") && !strings.HasPrefix(o.Ref, "decided:") {
+				return false, "returns inside the loop although every element so far compared equal: " + o.String()
+			}
 			if strings.HasPrefix(o.Ref, "decided:") {
 				cls := strings.TrimPrefix(o.Ref, "decided:")
 				if v != perClass[cls] {
